@@ -48,7 +48,7 @@ class C14(Prop):
     level = "exploration"
     tiers = {
         "quick": [("sync", 240000), ("async", 180000), ("async-sweep", 18000)],
-        "thorough": [("sync", 4800000), ("async", 3600000), ("async-sweep", 360000)],
+        "thorough": [("sync", 4800000), ("async", 3600000), ("async-sweep", 360000), ("sync-deep", 400000), ("async-deep", 400000), ("async-sweep-deep", 20000)],
     }
     rule_text = (
         "one case = (limit 1..4, catching as class/tuple/set/default, delay None/int/float/callable, outcome "
@@ -68,7 +68,7 @@ class C14(Prop):
 
     def expand(self, seed, profile, run, sample):
         from sim.source import Source
-        if profile == "async-sweep":
+        if profile.removesuffix("-deep") == "async-sweep":
             return sweep_expand(self, seed, profile, run, sample)
         return run(Source(seed), sample)
 
@@ -77,8 +77,10 @@ class C14(Prop):
         from haiway import retry
 
         s = sim.source
+        deep = profile.endswith("-deep")
+        profile = profile.removesuffix("-deep")
         is_async = profile != "sync"
-        limit = 1 + s.draw(4, "limit")
+        limit = 1 + s.draw(9 if deep else 4, "limit")
         ck = s.draw(len(CATCHING), "catching")
         catching_name, catching_make = CATCHING[ck]
         dk = s.draw(7, "delay")  # none, float, int, callable, float, float zero, int zero
